@@ -72,7 +72,15 @@ type region struct {
 	header     *ssa.BasicBlock
 	in         map[*ssa.BasicBlock]bool
 	backStates []*State
+	backIns    []inEdge
+	exits      []exitEdge
 	escaped    int
+	unroll     bool
+}
+
+type exitEdge struct {
+	from, to *ssa.BasicBlock
+	st       *State
 }
 
 // runBlocks executes the blocks of fr.fn in topological order (back edges
@@ -128,6 +136,12 @@ func (w *World) runBlocks(fr *Frame, incoming map[*ssa.BasicBlock][]inEdge, rg *
 			switch {
 			case rg != nil && b == rg.header:
 				// the region's own loop: executing one iteration
+				if rg.unroll {
+					w.unrollArrival(fr, st, k)
+				}
+			case w.unrollN > 0 && fr.top:
+				w.unrollLoop(fr, ins, b, k, incoming, rg)
+				continue
 			case rg != nil:
 				unsupported("nested loop inside a loop declared deterministic in %s", fn.Name())
 			default:
@@ -190,10 +204,12 @@ func (w *World) pushEdge(fr *Frame, incoming map[*ssa.BasicBlock][]inEdge, from,
 	if rg != nil {
 		if to == rg.header && fr.loops.backEdge[[2]*ssa.BasicBlock{from, to}] {
 			rg.backStates = append(rg.backStates, st)
+			rg.backIns = append(rg.backIns, inEdge{from, st})
 			return
 		}
 		if !rg.in[to] {
 			rg.escaped++
+			rg.exits = append(rg.exits, exitEdge{from, to, st})
 			return
 		}
 	}
@@ -222,8 +238,11 @@ func (w *World) loopHead(fr *Frame, st *State, h *ssa.BasicBlock, k int) {
 	}
 	if fr.top {
 		for _, inv := range ls.Invariants {
+			if w.skipClause[inv] {
+				continue
+			}
 			env := w.contractEnv(fr, st, fr.entry)
-			w.oblige("loop.init", fmt.Sprintf("loop%d.init.%s", k, inv.Label), st.cond, w.skolemGoal(env, inv.Expr), inv.Star, props)
+			w.oblige("loop.init", fmt.Sprintf("loop%d.init.%s", k, inv.Label), st.cond, w.hintGoal(inv, env), inv.Star, props)
 		}
 	}
 	if fr.top && fr.contract != nil && fr.contract.Opts["forget-before-loop"] == fmt.Sprint(k) {
@@ -406,8 +425,11 @@ func (w *World) loopHead(fr *Frame, st *State, h *ssa.BasicBlock, k int) {
 		}
 	}
 	for _, inv := range ls.Invariants {
+		if w.skipClause[inv] {
+			continue
+		}
 		env := w.contractEnv(fr, st, fr.entry)
-		w.sc.assume(implies(st.cond, w.evalBool(env.assuming(), inv.Expr)))
+		w.hintEval(inv, func() { w.sc.assume(implies(st.cond, w.evalBool(env.assuming(), inv.Expr))) })
 		w.noteQuantFacts(st.cond, env, inv.Expr)
 	}
 	if fr.loopHeads == nil {
@@ -598,12 +620,18 @@ func (w *World) loopStep(fr *Frame, st *State, h *ssa.BasicBlock, k int) {
 		ord = fmt.Sprint(n)
 	}
 	for _, inv := range ls.Invariants {
+		if w.skipClause[inv] {
+			continue
+		}
 		env := w.contractEnv(fr, st, fr.entry)
-		w.oblige("loop.step", fmt.Sprintf("loop%d.step%s.%s", k, ord, inv.Label), st.cond, w.skolemGoal(env, inv.Expr), inv.Star, fr.contract.Props)
+		w.oblige("loop.step", fmt.Sprintf("loop%d.step%s.%s", k, ord, inv.Label), st.cond, w.hintGoal(inv, env), inv.Star, fr.contract.Props)
 	}
 	for _, rel := range ls.Steps {
+		if w.skipClause[rel] {
+			continue
+		}
 		env := w.contractEnv(fr, st, fr.entry)
-		w.oblige("loop.rel", fmt.Sprintf("loop%d.rel%s.%s", k, ord, rel.Label), st.cond, w.skolemGoal(env, rel.Expr), rel.Star, fr.contract.Props)
+		w.oblige("loop.rel", fmt.Sprintf("loop%d.rel%s.%s", k, ord, rel.Label), st.cond, w.hintGoal(rel, env), rel.Star, fr.contract.Props)
 	}
 }
 
@@ -1388,4 +1416,108 @@ func collectThenSort(fn *ssa.Function, body []*ssa.BasicBlock, head *ssa.BasicBl
 		}
 	}
 	return ""
+}
+
+// A helper invariant (not derived from the property) is a proof hint about the shape the code had when the
+// contract was written. When it can no longer be evaluated (it names a local that is gone, or a loop that is
+// no longer a range loop) it is set aside and the function is verified again without it: the ★ obligations
+// then prove without the hint or they fail; either way nothing is assumed that was not checked.
+type clauseSkip struct {
+	cl  *Clause
+	msg string
+}
+
+func (w *World) hintEval(cl *Clause, f func()) {
+	defer func() {
+		if r := recover(); r != nil {
+			if u, ok := r.(unsupportedErr); ok && !cl.Star {
+				panic(clauseSkip{cl, u.msg})
+			}
+			panic(r)
+		}
+	}()
+	f()
+}
+
+func (w *World) hintGoal(cl *Clause, env *CEnv) Term {
+	var t Term
+	w.hintEval(cl, func() { t = w.skolemGoal(env, cl.Expr) })
+	return t
+}
+
+// Bounded stand-in. When the proof hints of a function (its loop invariants) no longer fit its body, the
+// function is checked again with every loop unrolled: each loop head is entered at most unrollN times, no
+// invariant is used, nothing is forgotten at a loop head, and the paths that would enter a loop head once more
+// are not explored. What this decides is bounded (slices and maps of fewer than unrollN elements per loop) and
+// is reported as such, never as a proof.
+func (w *World) unrollLoop(fr *Frame, ins []inEdge, h *ssa.BasicBlock, k int, outer map[*ssa.BasicBlock][]inEdge, outerRg *region) {
+	inLoop := map[*ssa.BasicBlock]bool{}
+	for _, b := range fr.loops.body[h] {
+		inLoop[b] = true
+	}
+	// a value computed inside the loop and used after it would need a merge over the iterations
+	for _, b := range fr.fn.Blocks {
+		if inLoop[b] {
+			continue
+		}
+		for _, ins := range b.Instrs {
+			for _, op := range ins.Operands(nil) {
+				if op == nil || *op == nil {
+					continue
+				}
+				if d, ok := (*op).(ssa.Instruction); ok && d.Block() != nil && inLoop[d.Block()] {
+					if _, isAlloc := (*op).(*ssa.Alloc); !isAlloc {
+						unsupported("unrolling loop %d of %s: a value computed inside the loop is used after it", k, fr.fn.Name())
+					}
+				}
+			}
+		}
+	}
+	if fr.loopHeads != nil {
+		delete(fr.loopHeads, k)
+	}
+	cur := ins
+	for it := 0; it < w.unrollN; it++ {
+		rg := &region{header: h, in: inLoop, unroll: true}
+		inc := map[*ssa.BasicBlock][]inEdge{h: cur}
+		w.runBlocks(fr, inc, rg)
+		for _, e := range rg.exits {
+			w.pushEdge(fr, outer, e.from, e.to, e.st, outerRg)
+		}
+		if len(rg.backIns) == 0 {
+			return
+		}
+		cur = rg.backIns
+	}
+	w.unrollCuts++
+}
+
+// unrollArrival checks the ★ invariants and ★ step relations of loop k at one arrival at its head.
+func (w *World) unrollArrival(fr *Frame, st *State, k int) {
+	if !fr.top || fr.contract == nil {
+		return
+	}
+	ls := w.loopSpec(fr, k)
+	w.callOrd[fmt.Sprintf("unroll:%d", k)]++
+	n := w.callOrd[fmt.Sprintf("unroll:%d", k)]
+	if fr.loopHeads == nil {
+		fr.loopHeads = map[int]*State{}
+	}
+	for _, inv := range ls.Invariants {
+		if !inv.Star {
+			continue
+		}
+		env := w.contractEnv(fr, st, fr.entry)
+		w.oblige("loop.step", fmt.Sprintf("loop%d.arrival%d.%s", k, n, inv.Label), st.cond, w.skolemGoal(env, inv.Expr), true, fr.contract.Props)
+	}
+	if _, seen := fr.loopHeads[k]; seen {
+		for _, rel := range ls.Steps {
+			if !rel.Star {
+				continue
+			}
+			env := w.contractEnv(fr, st, fr.entry)
+			w.oblige("loop.rel", fmt.Sprintf("loop%d.arrival%d.%s", k, n, rel.Label), st.cond, w.skolemGoal(env, rel.Expr), true, fr.contract.Props)
+		}
+	}
+	fr.loopHeads[k] = st.clone()
 }
